@@ -1,5 +1,8 @@
 import RedbModel.Model.KeyType
 import RedbModel.Lemmas.KeyType
+import RedbModel.Model.KeyVal
+import RedbModel.Lemmas.KeyVal
+import RedbModel.Lemmas.KeyValOrd
 /-!
 # C15 — Built-in key types order correctly and separators are valid
 
@@ -41,5 +44,171 @@ theorem c15_min_key_least (t : KT) (m : Bytes) (h : minKey t = some m) :
 /-- Valid encodings of a fixed-width type have exactly that width. -/
 theorem c15_valid_fixed_width (t : KT) (w : Nat) (a : Bytes)
     (h : fixedWidth t = some w) (ha : valid t a = true) : a.length = w := valid_fixedWidth t w a h ha
+
+/-! ## Value level
+
+`Model/KeyVal.lean`: values `Val`, `wellTyped t v` (v is a value of the key type `t`, within the
+range of the Rust type and within the sizes the Rust encoder accepts without panicking),
+`encode t v` (`Value::as_bytes`), `decode t d` (`Value::from_bytes`), `vcmp t a b` (Rust's native
+`Ord` of the values: integers numerically, `false < true`, `char` by scalar value, `str` by scalar
+values lexicographically, byte slices lexicographically, `None < Some`, arrays and tuples
+lexicographically by component). `t` ranges over every descriptor, `a b v` over all well-typed
+values. -/
+
+/-- Every encoded value is a valid encoding of its type. -/
+theorem c15_encode_valid (t : KT) (v : Val) (h : wellTyped t v = true) :
+    valid t (encode t v) = true := encode_valid t v h
+
+/-- Every value decodes to what was encoded. -/
+theorem c15_decode_encode (t : KT) (v : Val) (h : wellTyped t v = true) :
+    decode t (encode t v) = some v := decode_encode t v h
+
+/-- The byte-level comparison orders encoded keys exactly as the values themselves order. -/
+theorem c15_encoding_order (t : KT) (a b : Val)
+    (ha : wellTyped t a = true) (hb : wellTyped t b = true) :
+    cmp t (encode t a) (encode t b) = vcmp t a b := encoding_order t a b ha hb
+
+/-- The value order is a genuine total order: it answers `eq` on equal values only. -/
+theorem c15_value_order_eq_iff (t : KT) (a b : Val)
+    (ha : wellTyped t a = true) (hb : wellTyped t b = true) :
+    vcmp t a b = .eq ↔ a = b := vcmp_eq_iff t a b ha hb
+
+/-- Hence the encoder is an order embedding: encodings compare equal only for equal values. -/
+theorem c15_encoding_cmp_eq_iff (t : KT) (a b : Val)
+    (ha : wellTyped t a = true) (hb : wellTyped t b = true) :
+    cmp t (encode t a) (encode t b) = .eq ↔ a = b := by
+  rw [encoding_order t a b ha hb]; exact vcmp_eq_iff t a b ha hb
+
+/-- The `str` instance spelled out: the byte order of UTF-8 (which is what Rust's `Ord for str`
+and `Key::compare` of `&str`/`String` use) is the lexicographic order of the scalar values. -/
+theorem c15_utf8_order (a b : List Nat)
+    (ha : a.all isScalar = true) (hb : b.all isScalar = true) :
+    lexCmp (utf8Enc a) (utf8Enc b) = lexBy (fun (p q : Nat) => compare p q) a b :=
+  lexCmp_utf8Enc a b ha hb
+
+/-- Iteration order equals value order: a sequence of keys is strictly ascending for the
+byte-level comparator iff the values are strictly ascending. -/
+theorem c15_iteration_order (t : KT) (vs : List Val) (h : ∀ v ∈ vs, wellTyped t v = true) :
+    List.Pairwise (fun x y => cmp t (encode t x) (encode t y) = .lt) vs ↔
+      List.Pairwise (fun x y => vcmp t x y = .lt) vs := by
+  apply List.Pairwise.iff_of_mem
+  intro x y hx hy
+  rw [encoding_order t x y (h x hx) (h y hy)]
+
+/-- The separator contract restated on values: for values `a < b` the separator of their
+encodings is a valid encoding `s` with `a ≤ s < b` (byte-level order) and no longer than `a`. -/
+theorem c15_sep_contract_values (t : KT) (a b : Val)
+    (ha : wellTyped t a = true) (hb : wellTyped t b = true) (hlt : vcmp t a b = .lt) :
+    valid t (sep t (encode t a) (encode t b)) = true ∧
+      cmp t (encode t a) (sep t (encode t a) (encode t b)) ≠ .gt ∧
+      cmp t (sep t (encode t a) (encode t b)) (encode t b) = .lt ∧
+      (sep t (encode t a) (encode t b)).length ≤ (encode t a).length :=
+  c15_sep_contract t _ _ (encode_valid t a ha) (encode_valid t b hb)
+    (by rw [encoding_order t a b ha hb]; exact hlt)
+
+/-- Lookups route correctly: with the branch key `s` stored between the values `a < b`, every key
+`k ≤ a` compares `≤ s` (goes left) and every key `k ≥ b` compares `> s` (goes right). -/
+theorem c15_branch_separator_routes_values (t : KT) (a b k : Val)
+    (ha : wellTyped t a = true) (hb : wellTyped t b = true) (hk : wellTyped t k = true)
+    (hlt : vcmp t a b = .lt) :
+    (vcmp t k a ≠ .gt →
+      cmp t (encode t k) (branchSeparator t (encode t a) (encode t b)) ≠ .gt) ∧
+    (vcmp t b k ≠ .gt →
+      cmp t (branchSeparator t (encode t a) (encode t b)) (encode t k) = .lt) := by
+  have va := encode_valid t a ha
+  have vb := encode_valid t b hb
+  have vk := encode_valid t k hk
+  have hs := branchSeparator_contract t _ _ va vb (by rw [encoding_order t a b ha hb]; exact hlt)
+  simp only [sepOk, Bool.and_eq_true, bne_iff_ne, ne_eq, beq_iff_eq, decide_eq_true_eq] at hs
+  obtain ⟨⟨⟨s1, s2⟩, s3⟩, _⟩ := hs
+  have laws := ordLaws_cmp t
+  constructor
+  · intro h
+    rw [← encoding_order t k a hk ha] at h
+    exact laws.trans_le _ _ _ vk va s1 h s2
+  · intro h
+    rw [← encoding_order t b k hb hk] at h
+    exact laws.trans_lt' _ _ _ s1 vb vk s3 h
+
+/-! ### non-vacuity: concrete values (nested `Option`, arrays, tuples, multi-byte UTF-8, extremes) -/
+
+section Examples
+
+/-- `(Option<&str>, [i16; 2], u8)` -/
+private def tEx : KT := .tuple [.option .str, .array 2 (.sint 2), .uint 1]
+/-- `(Some("a€😀"), [-2, 300], 7)` -/
+private def vEx1 : Val :=
+  .tup [.some (.str [0x61, 0x20AC, 0x1F600]), .arr [.sint (-2), .sint 300], .uint 7]
+/-- `(Some("a€😀"), [-2, 301], 0)` -/
+private def vEx2 : Val :=
+  .tup [.some (.str [0x61, 0x20AC, 0x1F600]), .arr [.sint (-2), .sint 301], .uint 0]
+
+example : wellTyped tEx vEx1 = true := by decide
+example : wellTyped tEx vEx2 = true := by decide
+-- varint length 9 of the first element, tag 1, UTF-8 of 1, 3 and 4 bytes, two's complement
+example : encode tEx vEx1 =
+    [9, 1, 0x61, 0xE2, 0x82, 0xAC, 0xF0, 0x9F, 0x98, 0x80, 0xFE, 0xFF, 0x2C, 0x01, 7] := by decide
+example : vcmp tEx vEx1 vEx2 = .lt := by decide
+example : decode tEx (encode tEx vEx1) = some vEx1 := by rfl
+example : cmp tEx (encode tEx vEx1) (encode tEx vEx2) = .lt := by
+  rw [c15_encoding_order tEx vEx1 vEx2 (by decide) (by decide)]; decide
+example : valid tEx (encode tEx vEx1) = true := c15_encode_valid tEx vEx1 (by decide)
+
+-- signed integers: -2 < 1 although the bytes FE FF > 01 00
+example : encode (.sint 2) (.sint (-2)) = [0xFE, 0xFF] := by decide
+example : vcmp (.sint 2) (.sint (-2)) (.sint 1) = .lt := by decide
+example : cmp (.sint 2) [0xFE, 0xFF] [0x01, 0x00] = .lt := by
+  have h := c15_encoding_order (.sint 2) (.sint (-2)) (.sint 1) (by decide) (by decide)
+  have e1 : encode (.sint 2) (.sint (-2)) = [0xFE, 0xFF] := by decide
+  have e2 : encode (.sint 2) (.sint 1) = [0x01, 0x00] := by decide
+  rw [e1, e2] at h
+  rw [h]; decide
+-- extremes of u128 / i128, and the first values outside
+example : wellTyped (.uint 16) (.uint (2 ^ 128 - 1)) = true := by decide
+example : wellTyped (.uint 16) (.uint (2 ^ 128)) = false := by decide
+example : wellTyped (.sint 16) (.sint (-(2 ^ 127))) = true := by decide
+example : wellTyped (.sint 16) (.sint (2 ^ 127)) = false := by decide
+example : encode (.sint 1) (.sint (-128)) = [0x80] := by decide
+example : vcmp (.sint 16) (.sint (-(2 ^ 127))) (.sint (2 ^ 127 - 1)) = .lt := by decide
+-- char: surrogates are not values; the largest scalar value
+example : wellTyped .char (.char 0xD800) = false := by decide
+example : encode .char (.char 0x10FFFF) = [0xFF, 0xFF, 0x10] := by decide
+-- str: "z" < "é" < "€" < "😀" by scalar value, and so do the UTF-8 bytes (7A, C3 A9, E2 82 AC, F0 ..)
+example : vcmp .str (.str [0x7A]) (.str [0xE9]) = .lt := by decide
+example : encode .str (.str [0xE9, 0x20AC, 0x1F600]) =
+    [0xC3, 0xA9, 0xE2, 0x82, 0xAC, 0xF0, 0x9F, 0x98, 0x80] := by decide
+example : decode .str [0xC3, 0xA9, 0xE2, 0x82, 0xAC, 0xF0, 0x9F, 0x98, 0x80] =
+    some (.str [0xE9, 0x20AC, 0x1F600]) := by rfl
+-- equal prefix and empty: "" < "a" < "ab"
+example : vcmp .str (.str []) (.str [0x61]) = .lt := by decide
+example : vcmp .str (.str [0x61]) (.str [0x61, 0x62]) = .lt := by decide
+-- Option: None < Some(None) < Some(Some("")); fixed-width None is padded
+example : vcmp (.option (.option .str)) .none (.some .none) = .lt := by decide
+example : vcmp (.option (.option .str)) (.some .none) (.some (.some (.str []))) = .lt := by decide
+example : encode (.option (.option .str)) (.some (.some (.str []))) = [1, 1] := by decide
+example : encode (.option (.uint 4)) .none = [0, 0, 0, 0, 0] := by decide
+example : decode (.option (.uint 4)) [0, 0, 0, 0, 0] = some .none := by rfl
+-- variable-width array: end offsets 9, 9 then the payloads "a", ""
+example : encode (.array 2 .str) (.arr [.str [0x61], .str []]) =
+    [9, 0, 0, 0, 9, 0, 0, 0, 0x61] := by decide
+example : decode (.array 2 .str) [9, 0, 0, 0, 9, 0, 0, 0, 0x61] =
+    some (.arr [.str [0x61], .str []]) := by rfl
+-- ill-typed values are rejected
+example : wellTyped (.array 2 .str) (.arr [.str [0x61]]) = false := by decide
+example : wellTyped tEx (.tup [.none, .arr [.sint 0, .sint 40000], .uint 0]) = false := by decide
+-- the separator of "apple" < "apric" is the encoding of the value "apr", which lies between them
+example : sep .str (encode .str (.str [0x61, 0x70, 0x70, 0x6C, 0x65]))
+    (encode .str (.str [0x61, 0x70, 0x72, 0x69, 0x63])) = encode .str (.str [0x61, 0x70, 0x72]) := by
+  have e1 : encode .str (.str [0x61, 0x70, 0x70, 0x6C, 0x65]) = [0x61, 0x70, 0x70, 0x6C, 0x65] := by
+    decide
+  have e2 : encode .str (.str [0x61, 0x70, 0x72, 0x69, 0x63]) = [0x61, 0x70, 0x72, 0x69, 0x63] := by
+    decide
+  have e3 : encode .str (.str [0x61, 0x70, 0x72]) = [0x61, 0x70, 0x72] := by decide
+  rw [e1, e2, e3]
+  simp [sep, commonPrefixLen, roundUpToCharBoundary, isCont]
+example : vcmp .str (.str [0x61, 0x70, 0x70, 0x6C, 0x65]) (.str [0x61, 0x70, 0x72]) = .lt ∧
+    vcmp .str (.str [0x61, 0x70, 0x72]) (.str [0x61, 0x70, 0x72, 0x69, 0x63]) = .lt := by decide
+
+end Examples
 
 end Redb.Key
